@@ -1,6 +1,6 @@
 (* C12 — MODEL of the module metrics: internal/analyzer/coupling_metrics.go:66-121
-   (calculateModuleMetrics, calculateAbstractness) and service/system_analysis_service.go:921-955
-   (calculateMaxDepth, calculateDepthFromModule), with the SPEC versions next to them.
+   (calculateModuleMetrics, calculateAbstractness) and service/system_analysis_service.go
+   (calculateMaxDepth, calculateDepthFromModule: their value, see the note there), with the SPEC versions next to them.
    float64 is modelled by Q (DESIGN section 3); the harness compares with the float results. *)
 From Coq Require Import NArith ZArith QArith Qabs List Bool Arith.
 From PV Require Import Deps.PyImport Deps.Imports.
@@ -64,7 +64,11 @@ Definition distance (a i : Q) : Q := Qabs (a + i - 1)%Q.
 Definition omax (a b : option nat) : option nat :=
   match a, b with Some x, Some y => Some (Nat.max x y) | _, _ => None end.
 
-(* calculateDepthFromModule (system_analysis_service.go:934-955); None = out of fuel *)
+(* calculateDepthFromModule (system_analysis_service.go), the search along every simple path; None = out of fuel.
+   Since the repair of finding F21 (78c5737) the code answers currentDepth + height at once for a module from which no import
+   cycle can be reached and walks the paths only for the other modules; the VALUE is the one of this search on every graph
+   (Deps/DepthCostProofs.v: max_depth_value_unchanged, theorem C06_max_depth_value_unchanged), and harness/c12.py compares the
+   implementation with this model on acyclic and cyclic projects. *)
 Fixpoint calculateDepthFromModule (fuel : nat) (es : list edge) (visited : list path) (current : path)
     (currentDepth : nat) : option nat :=
   match fuel with
@@ -75,7 +79,7 @@ Fixpoint calculateDepthFromModule (fuel : nat) (es : list edge) (visited : list 
                 (succs es current) (Some currentDepth)
   end.
 
-(* calculateMaxDepth (system_analysis_service.go:921-932) *)
+(* calculateMaxDepth (system_analysis_service.go) *)
 Definition calculateMaxDepth (nodes : list path) (es : list edge) : option nat :=
   fold_left (fun acc m => omax acc (calculateDepthFromModule (S (S (length nodes))) es [] m 0)) nodes (Some 0).
 
